@@ -598,7 +598,8 @@ def gen_h2glue(rng, idx: int) -> dict:
     plans = []
     for k in range(n):
         sid = 1 + 2 * k
-        kind = rng.choice(["post", "post", "query", "te_trailers", "no_authority_host", "odd_method", "big_headers", "get", "nonascii_path", "connect_plain"])
+        kind = rng.choice(["post", "post", "query", "te_trailers", "no_authority_host", "odd_method", "big_headers", "get", "nonascii_path", "connect_plain",
+                           "lower_method"])
         nd = 0 if kind in ("get", "connect_plain") else rng.choice([0, 1, 2, 3, 6])
         frames = []
         for j in range(nd):
@@ -617,7 +618,10 @@ def gen_h2glue(rng, idx: int) -> dict:
         sid = p["sid"]
         r = rng.random()
         if not p["hdr_sent"]:
-            hs = G.req_headers(p["kind"], path=p["path"]) if p["kind"] not in ("query", "nonascii_path", "odd_method", "connect_plain") else G.req_headers(p["kind"])
+            if p["kind"] == "lower_method":      # HTTP/2 does not fold the case of :method, the scope reports it upper-cased
+                hs = [(":method", rng.choice(["post", "pUt"])), (":scheme", "http"), (":authority", "x"), (":path", p["path"])]
+            else:
+                hs = G.req_headers(p["kind"], path=p["path"]) if p["kind"] not in ("query", "nonascii_path", "odd_method", "connect_plain") else G.req_headers(p["kind"])
             hs = hs + [("x-k", str(sid))]
             end_now = not p["frames"] and p["ends"]
             steps.append({"read": b2s(F.headers(sid, hs, end_stream=end_now, cont=rng.choice([0, 0, 3])))})
@@ -732,6 +736,17 @@ def check_h2glue(ctx: Ctx, cases: List[dict]) -> None:
             if pre:
                 rx = [o for o in pre if (o["op"] in ("request", "data") and o["sid"] == sid) or (o["op"] == "ev" and o.get("k") == "ended" and o.get("sid") == sid)]
                 if rx and rx[0]["op"] == "request" and sum(1 for o in rx if o["op"] == "request") == 1:
+                    # the scope, against an independent reading of the client's header list (the statement's own words)
+                    hl = [(n_.encode("latin1"), v_.encode("latin1")) for n_, v_ in rx[0]["headers"]]
+                    meth = [v_ for n_, v_ in hl if n_ == b":method"][-1]
+                    rawp, _, qs = [v_ for n_, v_ in hl if n_ == b":path"][-1].partition(b"?")
+                    auth = [v_ for n_, v_ in hl if n_ == b":authority"]
+                    hostv = auth[-1] if auth else ([v_ for n_, v_ in hl if n_ == b"host"] or [b""])[-1]
+                    want_scope = {"method": meth.decode("ascii").upper(), "http_version": "2", "raw_path": b2s(rawp), "query_string": b2s(qs),
+                                  "headers": [["host", b2s(hostv)]] + [[b2s(n_), b2s(v_)] for n_, v_ in hl if not n_.startswith(b":") and n_ != b"host"]}
+                    if a["scope"] != want_scope:
+                        diff = {f: [a["scope"].get(f), want_scope[f]] for f in want_scope if a["scope"].get(f) != want_scope[f]}
+                        ctx.violation("scope", {**case, "sid": sid}, diff, {**sig, "fields": sorted(diff)})
                     ended = rx[-1]["op"] == "ev"
                     datas = [o["d"] for o in rx if o["op"] == "data"]
                     want = [[d, True] for d in datas] + ([["", False]] if ended else [])
